@@ -611,7 +611,78 @@ func genFind(furthest bool, maxEdgesQ, maxEdgesT int) func(t *rapid.T) findCase 
 }
 
 // genFindIndexTarget: the target is a second index.
+// genCloud: point clouds on both sides with MaxResults 1, a finite distance limit
+// and 0 < MaxError < limit: the combination in which the index target returns
+// approximate cell distances and the search has to widen them by MaxError
+// (useConservativeCellDistance). About one such configuration in a thousand
+// shows a search that forgets to (seeded change C08-r72), so several option sets
+// are drawn per case.
+// uni01: a uniform draw in [0,1) (rapid's own ranges favour small magnitudes):
+// two rapid draws mixed through splitmix64, still a pure function of the draws.
+func uni01(t *rapid.T, label string) float64 {
+	a := rapid.Uint64().Draw(t, label+".ua")
+	b := rapid.Uint64().Draw(t, label+".ub")
+	z := a + 0x9e3779b97f4a7c15*(b+1)
+	z = (z ^ (z >> 30)) * 0xbf58476d1ce4e5b9
+	z = (z ^ (z >> 27)) * 0x94d049bb133111eb
+	z ^= z >> 31
+	return float64(z>>11) / (1 << 53)
+}
+
+func genCloud(t *rapid.T) findCase {
+	furthest := rapid.IntRange(0, 3).Draw(t, "cfurthest") != 0
+	c := gen.Uniform(t, "cc")
+	rad := math.Pow(10, -2*uni01(t, "crad"))
+	n := 40 + int(100*uni01(t, "cn"))
+	cloud := func(l string, c s2.Point, rad float64, n int) []gen.P {
+		var v []gen.P
+		for i := 0; i < n; i++ {
+			d := gen.Uniform(t, fmt.Sprintf("%s%d", l, i))
+			v = append(v, gen.FromPt(gen.Fix(s2.Point{Vector: c.Add(d.Mul(rad * uni01(t, l+"f"))).Normalize()}, c)))
+		}
+		return v
+	}
+	ic := indexCase{Shapes: []shapeCase{{Type: "points", Loops: [][]gen.P{cloud("cp", c, rad, n)}}}}
+	tc := s2.Point{Vector: c.Mul(-1)}
+	if rapid.IntRange(0, 3).Draw(t, "ctfree") != 0 { // (a scan of the seeded change C08-r72 found 95% of its failures here)
+		tc = gen.Uniform(t, "ctc")
+	}
+	trad := math.Pow(10, -1.2*uni01(t, "ctrad"))
+	b := indexCase{Shapes: []shapeCase{{Type: "points", Loops: [][]gen.P{cloud("ct", tc, trad, 2+int(5*uni01(t, "ctn")))}}}}
+	// the extreme pair distance (plain floats: this only steers the options)
+	best := -1.0
+	if !furthest {
+		best = 5
+	}
+	for _, p := range ic.Shapes[0].Loops[0] {
+		for _, q := range b.Shapes[0].Loops[0] {
+			d := float64(s2.ChordAngleBetweenPoints(p.Pt(), q.Pt()))
+			if (furthest && d > best) || (!furthest && d < best) {
+				best = d
+			}
+		}
+	}
+	fc := findCase{Index: ic, Furthest: furthest}
+	tq := targetQ{T: targetCase{Kind: "index", Idx: &b}}
+	for j := 0; j < 10; j++ {
+		l := fmt.Sprintf("co%d", j)
+		o := optCase{MaxResults: 1, LimKind: 1, Interiors: 2}
+		o.MaxError = best * 0.2 * uni01(t, l+"e")
+		if furthest {
+			o.LimAbs = best * (0.3 + 0.6*uni01(t, l+"l"))
+		} else {
+			o.LimAbs = math.Min(4, best*(1.1+3*uni01(t, l+"l"))+o.MaxError)
+		}
+		tq.Opts = append(tq.Opts, o)
+	}
+	fc.Targets = append(fc.Targets, tq)
+	return fc
+}
+
 func genFindIndexTarget(t *rapid.T) findCase {
+	if rapid.IntRange(0, 1).Draw(t, "cloud") == 0 {
+		return genCloud(t)
+	}
 	furthest := rapid.Bool().Draw(t, "furthest")
 	maxA, maxB := 90, 60
 	if thorough() && rapid.IntRange(0, 5).Draw(t, "bigidx") == 0 {
